@@ -154,7 +154,7 @@ def keptOf (sc : Scn) (a b : Step) (eA : Ev) (bs : List Ev) : List Ev :=
   ok.take sc.cfg.lim.maxEvents
 
 /-- expected result line for an event of the `A B^n C` prefix (`none`: the judge has no opinion) -/
-def expected (sc : Scn) (e : Ev) : Option String :=
+def expected (sc : Scn) (e : Ev) : Option (String × Bool) :=
   match kleeneShape sc, sc.evs with
   | some (a, b, c?), eA :: bs =>
     if !(stepOk a eA [] && bs.all (·.ty == 1) && sc.cfg.maxRuns ≥ 1 && !sc.cfg.partitioned) then none else
@@ -163,15 +163,15 @@ def expected (sc : Scn) (e : Ev) : Option String :=
     let entry (s : Step) (e : Ev) : Entry := ⟨e, s.alias⟩
     match c? with
     | some c =>
-      if e.ty == 1 then some "m=- z=-"
+      if e.ty == 1 then some ("m=- z=-", false)
       else if e.ty != 2 then none
       else
         let kept := keptOf sc a b eA bs
         match kept.getLast? with
-        | none => some "m=- z=-"
+        | none => some ("m=- z=-", false)
         | some lastB =>
           let capB := cap0.setOpt b.alias lastB
-          if !stepOk c e capB then some "m=- z=-" else
+          if !stepOk c e capB then some ("m=- z=-", false) else
           let capC := capB.setOpt c.alias e
           let stack := [entry a eA] ++ kept.map (entry b) ++ [entry c e]
           if isSelf then
@@ -179,16 +179,18 @@ def expected (sc : Scn) (e : Ev) : Option String :=
             let sets := Spec.expectedSets p b.alias capC kept sc.cfg.lim.maxResults
             let ms : List (List Match) := [sets.map fun s =>
               { captured := capC.setOpt b.alias ((Spec.pick kept s).getLastD lastB), stack := stack, enum := some (kept.length, s) }]
-            some (fmtOut sc.api { emitted := ms })
-          else some (fmtOut sc.api { emitted := [[{ captured := capC, stack := stack }]] })
+            some (fmtOut sc.api { emitted := ms }, false)
+          else some (fmtOut sc.api { emitted := [[{ captured := capC, stack := stack }]] }, false)
     | none =>
       -- trailing `all` (consistent filters only): every kept B reports the closure so far
       if isSelf || e.ty != 1 then none else
       let kept := keptOf sc a b eA bs
       let kept' := keptOf sc a b eA (bs ++ [e])
-      if kept'.length == kept.length then some "m=- z=-" else
+      -- guard of the known finding: more filter-passing B events than `maxKleene` have arrived
+      let over := ((bs ++ [e]).filter fun x => stepOk b x cap0).length > sc.cfg.lim.maxEvents
+      if kept'.length == kept.length then some ("m=- z=-", over) else
       let stack := [entry a eA] ++ kept'.map (entry b)
-      some (fmtOut sc.api { emitted := [[{ captured := cap0.setOpt b.alias e, stack := stack }]] })
+      some (fmtOut sc.api { emitted := [[{ captured := cap0.setOpt b.alias e, stack := stack }]] }, over)
   | _, _ => none
 
 def between (s a b : String) : Option String :=
@@ -214,10 +216,6 @@ def judgeDistinct (sc : Scn) (impl : String) : Option String × List String :=
       (if hasDup items then some "an index set was emitted twice by one enumeration" else none, sc.seen)
   | _ => (none, sc.seen)
 
-/-- trailing `all`: the known class of duplicates (the run's stack re-emitted through the ε→Accept arm by a
-non-extending event) -/
-def trailingAll (sc : Scn) : Bool := match sc.steps.getLast? with | some s => s.kleene | none => false
-
 def step (sc : Scn) (line : String) : Scn × String :=
   let (op, impl?) := splitCase line
   match words (if impl?.isNone then stripComment op else op) with
@@ -239,10 +237,14 @@ def step (sc : Scn) (line : String) : Scn × String :=
       let v :=
         if impl == "panic" then "JUDGE C05/C03 processing panicked"
         else match exp with
-          | some x => if x != impl then s!"JUDGE C03 expected={x}" else
-              (match dup with | some why => s!"JUDGE C03 {why}" | none => verdict model impl)
+          | some (x, over) =>
+              if x != impl then
+                (if over && model == impl then s!"KNOWN[C03-trailing-all-uncapped] expected={x}"
+                 else if over then verdict model impl
+                 else s!"JUDGE C03 expected={x}")
+              else (match dup with | some why => s!"JUDGE C03 {why}" | none => verdict model impl)
           | none => match dup with
-              | some why => if trailingAll sc then s!"KNOWN[C03-trailing-all-reemit] {why}" else s!"JUDGE C03 {why}"
+              | some why => s!"JUDGE C03 {why}"
               | none => verdict model impl
       (sc', v)
     | _, _ => (sc, "BADLINE")
